@@ -456,6 +456,16 @@ def _judge(env, case, instances):
                     f" expected entities (must)={lo0} (may)={up0}\n got units={out.units}\n case={case}"
                 )
                 return [(HYP_CLAUSE[h], h, msg) for h in hs], None
+    missing = sorted({k for u in out.units if u[0] == "r" for k, v in u[1] if v == "<missing>"})
+    if missing:
+        lv_kind = ["query-level" if R.level_of(root, k) == level else "higher-level" for k in missing if k in R.KEYS] or ["level"]
+        return [
+            (
+                "response-identifier",
+                f"requested-key-missing:{'+'.join(sorted(set(lv_kind)))}",
+                f"{where}: C-FIND response lacks requested key(s) {missing}\n got units={out.units}\n case={case}",
+            )
+        ], None
     got_e = [u[1] for u in out.units if u[0] == "e"]
     if any(e not in up0 for e in got_e):
         kind = "over"
